@@ -44,7 +44,10 @@ def extract():
     if not sp: raise ExtractError("spawn_off_reader: spawn_blocking closure")
     clo, _ = block_after(body, sp.end())
     st = statements(clo)
-    f["permitHeldForRun"] = bool(st) and bool(re.fullmatch(r"let _[A-Za-z]\w* = permit;", st[0])) and "drop(_" not in clo and "forget" not in clo
+    # the permit is bound to a named `_x` at the top level of the closure before the handler is dispatched
+    bind = [i for i, x in enumerate(st) if re.fullmatch(r"let _[A-Za-z]\w* = permit;", x)]
+    disp = [i for i, x in enumerate(st) if "dispatch(" in x]
+    f["permitHeldForRun"] = len(bind) == 1 and bool(disp) and bind[0] < disp[0] and "drop(_" not in clo and "forget" not in clo and "let _ = permit" not in clo
     cu = re.search(r"catch_unwind\(std::panic::AssertUnwindSafe\(\|\|\s*\{\s*dispatch\(handler\.as_ref\(\), &request, &ctx, notify\)\s*\}\)\)", clo)
     f["panicCaught"] = bool(cu)
     pm = re.search(r"Err\(_\)\s*=>", clo)
